@@ -1908,6 +1908,63 @@ def r1_cargo_parse(ctx: RuleCtx) -> None:
     _matcher(ctx, mod, fn, post, OUT, ACC)
 
 
+def _callable_object_to_function(mod: Module, k: ast.ClassDef) -> T.Optional[ast.FunctionDef]:
+    """Normal form for "closure <-> callable object": a plain class of this module (no bases, no decorators, only `__init__`, `__call__`,
+    `__slots__` / annotations / a docstring) whose `__init__` does nothing but store each of its parameters in one attribute and whose
+    `__call__` never stores or deletes an attribute nor lets `self` escape is the function
+        def K.__call__(<parameters of __init__>, <parameters of __call__>): <body of __call__ with self.attr := the parameter>
+    with the constructor arguments bound (read like functools.partial).  None when the class is not of this shape."""
+    if k.decorator_list or k.keywords or any(norm(b) != 'object' for b in k.bases):
+        return None
+    meths: T.Dict[str, ast.FunctionDef] = {}
+    for x in k.body:
+        if isinstance(x, ast.FunctionDef):
+            meths[x.name] = x
+        elif isinstance(x, ast.Expr) and isinstance(x.value, ast.Constant):
+            continue
+        elif isinstance(x, ast.AnnAssign) and x.value is None:
+            continue
+        elif isinstance(x, ast.Assign) and [norm(t) for t in x.targets] == ['__slots__']:
+            continue
+        else:
+            return None
+    if set(meths) != {'__init__', '__call__'}:
+        return None
+    for m in meths.values():
+        a = m.args
+        if m.decorator_list or a.vararg or a.kwarg or a.kwonlyargs or a.posonlyargs or a.defaults or not a.args:
+            return None
+    init, callm = meths['__init__'], meths['__call__']
+    me0 = init.args.args[0].arg
+    iparams = [a.arg for a in init.args.args[1:]]
+    attr_of: T.Dict[str, str] = {}
+    for st in init.body:
+        if isinstance(st, ast.Expr) and isinstance(st.value, ast.Constant):
+            continue
+        tgt = st.targets[0] if isinstance(st, ast.Assign) and len(st.targets) == 1 else st.target if isinstance(st, ast.AnnAssign) and st.value is not None else None
+        v = getattr(st, 'value', None)
+        if not (isinstance(tgt, ast.Attribute) and isinstance(tgt.value, ast.Name) and tgt.value.id == me0 and tgt.attr not in attr_of and isinstance(v, ast.Name)
+                and v.id in iparams and v.id not in attr_of.values()):
+            return None
+        attr_of[tgt.attr] = v.id
+    me = callm.args.args[0].arg
+    cparams = [a.arg for a in callm.args.args[1:]]
+    clocals = {n.id for n in ast.walk(callm) if isinstance(n, ast.Name) and isinstance(n.ctx, (ast.Store, ast.Del))} | set(cparams)
+    if clocals & set(iparams) or me in clocals or any(isinstance(n, (ast.FunctionDef, ast.Lambda, ast.Global, ast.Nonlocal)) for b in callm.body for n in ast.walk(b)):
+        return None
+    t = _SelfAttrs(me, {x: ast.Name(id=p, ctx=ast.Load()) for x, p in attr_of.items()}, set(), '\0', ast.Call(func=ast.Name(id='\0', ctx=ast.Load()), args=[], keywords=[]))
+    body = [t.visit(copy.deepcopy(b)) for b in callm.body]
+    if t.bad or any(isinstance(n, ast.Name) and n.id in iparams and not isinstance(n.ctx, ast.Load) for b in body for n in ast.walk(b)):
+        return None
+    out = ast.FunctionDef(name=f'{k.name}.__call__', args=ast.arguments(posonlyargs=[], args=[ast.arg(arg=p) for p in iparams + cparams], kwonlyargs=[], kw_defaults=[], defaults=[]),
+                          body=body, decorator_list=[], returns=None, type_params=[])
+    ast.copy_location(out, callm)
+    for n0 in ast.walk(out):
+        if not hasattr(n0, 'lineno') and isinstance(n0, (ast.stmt, ast.expr, ast.arg)):
+            ast.copy_location(n0, callm)
+    return ast.fix_missing_locations(out)
+
+
 def _matcher(ctx: RuleCtx, mod: Module, fn: ast.FunctionDef, post: T.List[ast.stmt], OUT: str, ACC: str) -> None:
     """The returned predicate: empty -> always true; else gate + conjunction over the appended pairs."""
     defs = {s.name: s for s in post if isinstance(s, ast.FunctionDef)}
@@ -1929,9 +1986,14 @@ def _matcher(ctx: RuleCtx, mod: Module, fn: ast.FunctionDef, post: T.List[ast.st
             call = ast.Call(func=e.args[0], args=list(e.args[1:]), keywords=list(e.keywords))
         elif isinstance(e, ast.Lambda) and len(e.args.args) == 1 and isinstance(e.body, ast.Call) and isinstance(e.body.func, ast.Name) and mod.has_func(e.body.func.id):
             call, free = e.body, e.args.args[0].arg
+        f = None
+        if call is None and isinstance(e, ast.Call) and isinstance(e.func, ast.Name) and mod.has_cls(e.func.id):
+            f = _callable_object_to_function(mod, mod.cls(e.func.id))
+            if f is not None:
+                call = ast.Call(func=ast.Name(id=f.name, ctx=ast.Load()), args=list(e.args), keywords=list(e.keywords))
         if call is None:
             return None
-        f = nf(mod, call.func.id)     # type: ignore[attr-defined]
+        f = f or nf(mod, call.func.id)     # type: ignore[attr-defined]
         params = [a.arg for a in f.args.args]
         bound: T.Dict[str, str] = {}
         for pn, a in zip(params, call.args):
@@ -2464,8 +2526,8 @@ def _tok_language(ctx: RuleCtx, mod: Module) -> T.Dict[str, T.Any]:
     if not isinstance(r, Regex) or r.flags:
         raise Undecided(f'_SEMVER_TOK_RE does not fold to a flag-less regex: {r!r}')
     alts = split_alternatives(r.pattern)
-    if len(alts) != len(rx.branch_alternatives(r.pattern)) or len(alts) != 3:
-        raise Undecided(f'_SEMVER_TOK_RE: expected three top-level alternatives (digits | identifier | build), got {alts}')
+    if len(alts) != len(rx.branch_alternatives(r.pattern)) or len(alts) not in (2, 3):
+        raise Undecided(f'_SEMVER_TOK_RE: expected the top-level alternatives digits | identifier [| build], got {alts}')
     for a in alts:
         try:
             c = _re.compile(a)
@@ -2473,7 +2535,7 @@ def _tok_language(ctx: RuleCtx, mod: Module) -> T.Dict[str, T.Any]:
             raise Undecided(f'_SEMVER_TOK_RE alternative {a!r}: {e}')
         if c.groups != 1 or not (a.startswith('(') and a.endswith(')')):
             raise Undecided(f'_SEMVER_TOK_RE alternative {a!r} is not one capturing group')
-    digits, ident, build = alts
+    digits, ident, build = (alts + [None])[:3]     # two alternatives: no build token; the tokenizer must then run over the text cut at the first '+' (R2b, loop)
     ANY = r'[\s\S]*'
     w = rx.intersects(digits, ANY + r'[^0-9]' + ANY)
     ctx.require(w is None and not rx.full_matches(digits, '') and rx.full_matches(digits, '10'), 'digit branch: language is [0-9]+ (int(group(1)) is total)', mod, '<module>',
@@ -2490,10 +2552,11 @@ def _tok_language(ctx: RuleCtx, mod: Module) -> T.Dict[str, T.Any]:
                  f'e.g. 1.0.0-rc-1 is read as rc, -1)' if lost is not None else ''))
     w = rx.intersects(digits, ident)
     ctx.require(w is None, 'digit and identifier branches are disjoint', mod, '<module>', '_SEMVER_TOK_RE branches', f'{w!r} is matched by both the digit and the identifier alternative')
-    w = rx.intersects(build, r'[^+]' + ANY)
-    w2 = rx.intersects(build, r'\+[0-9A-Za-z.-]+')
-    ctx.require(w is None and w2 is not None and not rx.full_matches(build, ''), 'build branch: + followed by the rest of the text', mod, '<module>', '_SEMVER_TOK_RE build branch',
-                f'the third alternative {build!r} matches {w!r} / does not cover "+meta.1"')
+    w = rx.intersects(build, r'[^+]' + ANY) if build is not None else None
+    w2 = rx.intersects(build, r'\+[0-9A-Za-z.-]+') if build is not None else None
+    if build is not None:
+        ctx.require(w is None and w2 is not None and not rx.full_matches(build, ''), 'build branch: + followed by the rest of the text', mod, '<module>', '_SEMVER_TOK_RE build branch',
+                    f'the third alternative {build!r} matches {w!r} / does not cover "+meta.1"')
     for ch in '+.':
         ctx.require(not rx.matches_char(digits, ch) and not rx.matches_char(ident, ch), f'digit/identifier tokens cannot contain {ch!r}', mod, '<module>',
                     f'_SEMVER_TOK_RE token containing {ch}', f'a digit or identifier token can contain {ch!r}: identifiers / build metadata are no longer separated')
@@ -2662,8 +2725,25 @@ def r2_tokens(ctx: RuleCtx) -> None:
         raise Undecided('SemVer.__init__: expected one loop `for m in _SEMVER_TOK_RE.finditer(<input>)`')
     loop = loops[0]
     m = loop.target.id     # type: ignore[attr-defined]
-    ctx.require([norm(a) for a in loop.iter.args] == [inp], 'the tokenizer runs over the whole input text', mod, hq, loop.iter,     # type: ignore[attr-defined]
-                f'finditer is applied to {[norm(a) for a in loop.iter.args]}, not to the input')     # type: ignore[attr-defined]
+    # the scanned text: the input, or the input cut at the first '+' (build metadata discarded up front); a local bound once is read through
+    scanned = list(loop.iter.args)     # type: ignore[attr-defined]
+    if len(scanned) == 1 and isinstance(scanned[0], ast.Name) and scanned[0].id != inp:
+        sdefs = [s0 for s0 in ast.walk(host) if isinstance(s0, (ast.Assign, ast.AnnAssign, ast.AugAssign, ast.NamedExpr, ast.For, ast.With)) and
+                 any(isinstance(x, ast.Name) and x.id == scanned[0].id and isinstance(x.ctx, ast.Store) for x in ast.walk(s0))]
+        if len(sdefs) == 1 and isinstance(sdefs[0], (ast.Assign, ast.AnnAssign)) and sdefs[0].value is not None and norm(sdefs[0].targets[0] if isinstance(sdefs[0], ast.Assign) else sdefs[0].target) == scanned[0].id \
+                and not any(isinstance(x, ast.Name) and x.id == inp and isinstance(x.ctx, ast.Store) for x in ast.walk(host)):
+            scanned = [sdefs[0].value]
+    cut_forms = [f"{inp}.partition('+')[0]", f"{inp}.split('+', 1)[0]", f"{inp}.split('+', maxsplit=1)[0]", f"{inp}.split('+')[0]", f"{inp}.split(sep='+', maxsplit=1)[0]"]
+    cut_first = [norm(a) for a in scanned] in [[x] for x in cut_forms]
+    two_alt = facts['build'] is None
+    if two_alt and [norm(a) for a in scanned] == [inp]:
+        ctx.violation(mod, hq, 'tokens of the build metadata', f'_SEMVER_TOK_RE {facts["pattern"]!r} has no alternative for "+build" and finditer (which skips what no alternative matches) runs over the '
+                      f'whole input: the build metadata is tokenised like version components (SemVer("1.0.0+5") gets a fourth component, 1.0.0-rc+x a second identifier); build metadata must be ignored', loop)
+    elif not cut_first and any(isinstance(x, ast.Constant) and isinstance(x.value, str) and '+' in x.value for a in scanned for x in ast.walk(a)):
+        raise Undecided(f'{hq}: the tokenizer runs over {[short(a) for a in scanned]}, a way of cutting the build metadata this rule does not read')
+    else:
+        ctx.require(cut_first or (not two_alt and [norm(a) for a in scanned] == [inp]), 'the tokenizer runs over the whole input text (up to the build metadata)', mod, hq, loop.iter,     # type: ignore[attr-defined]
+                    f'finditer is applied to {[norm(a) for a in scanned]}, not to the input (or the input cut at the first "+")')     # type: ignore[attr-defined]
     # `a, b, c = m.groups()` is the same binding as three m.group(k) reads
     gindex = dict(_re.compile(facts['pattern']).groupindex)     # group name -> number (constant regex folded from source)
     body = [_GroupsUnpack(m).visit(copy.deepcopy(st)) for st in loop.body]
@@ -2759,6 +2839,14 @@ def r2_tokens(ctx: RuleCtx) -> None:
         if a.kind == 'cmp' and a.args[0] == 'eq':
             return a.args[1].startswith(g2) and is_const(expr_of(a.args[2]))
         return False
+    if two_alt:
+        # closed world of the folded regex: every match is group 1 or group 2 (each non-empty), so "not group 1" is "group 2"
+        for r in list(tab.rows):
+            c = rconds[id(r)]
+            if c.get(G[1]) is not True and c.get(G[2]) is False:
+                tab.rows.remove(r)
+            elif c.get(G[1]) is False:
+                c[G[2]] = True
     for r in tab.rows:
         c = rconds[id(r)]
         node = node_of(r)
@@ -2889,7 +2977,8 @@ def r2_tokens(ctx: RuleCtx) -> None:
         _assembly(ctx, mod, host, hq, loop, vec, ACC_REL, ACC_PRE, PRE)
     ctx.floor('tokenizer rows: digit', n_rows['digit'], 1)
     ctx.floor('tokenizer rows: identifier', n_rows['ident'], 1)
-    ctx.floor('tokenizer rows: build', n_rows['build'], 1)
+    if not (two_alt or cut_first):
+        ctx.floor('tokenizer rows: build', n_rows['build'], 1)
     # token boundaries vs identifier boundaries: inside the pre-release section a digit token directly followed by an identifier token is ONE
     # alphanumeric identifier (0a, 1-2: SemVer section 9).  The alternation always cuts there (digit branch first, language facts above), so
     # the loop has to rejoin them; it can only do so by reading match positions or by carrying the previous token over.
